@@ -43,6 +43,7 @@ class Ctx:
         self.stub_reg = {}
         self.divisors = []         # (divisor term, proven_nonzero)
         self.implied_cache = {}
+        self.assume_defined = False    # reciprocal facts r*d == 1 unconditionally (divisors assumed non-zero; logged)
         self.decided = {}              # condition ast id -> decision on this path
         self.order = {}                # term id -> {term id: strict}   edges x -> y meaning x > y (strict) or x >= y
         self.notes = []
@@ -848,10 +849,10 @@ def reciprocal(d):
     if k in CTX.rec_reg:
         return CTX.rec_reg[k]
     r = CTX.fresh('rec')
-    nz = implied(d != 0) if CTX.resolve_guards else None
+    nz = True if CTX.assume_defined else (implied(d != 0) if CTX.resolve_guards else None)
     if nz is True:
         CTX.fact(r * d == 1)
-        pos = implied(d > 0)
+        pos = implied(d > 0) if not CTX.assume_defined else None
         if pos is True:
             CTX.fact(r > 0, simple=True)
     else:
@@ -969,8 +970,15 @@ class SC:
     def __pos__(self):
         return self
 
-    def __abs__(self):
+    def _im_zero(self):
         if _is_zero(self.im):
+            return True
+        if self.im.is_conc:
+            return False
+        return z3.simplify(self.im.z, som=True).eq(z3.RealVal(0))
+
+    def __abs__(self):
+        if self._im_zero():
             return abs(self.re)
         return (self.re * self.re + self.im * self.im).sqrt()
 
@@ -1006,7 +1014,7 @@ class SC:
         return SC(m * SR(c), m * SR(s))
 
     def sqrt(self):
-        if _is_zero(self.im):
+        if self._im_zero():
             ok = self.re >= 0
             if bool(ok):
                 return SC(self.re.sqrt())
